@@ -219,7 +219,7 @@ class InstrumentedServer:
             self.sio.emit('event_received', (
                 namespace,
                 sid,
-                (event, *args[1:]),
+                [event, *args[1:]],
                 datetime.fromtimestamp(t, timezone.utc).isoformat(),
             ), namespace=self.admin_namespace)
         return self.sio.__trigger_event(event, namespace, *args)
